@@ -50,6 +50,36 @@ def execute(cfg, V):
                 if isinstance(v, str): obs.append(Ob(f'stored unaltered {k}', 0 if stored == v else 1))
                 else: obs.append(Ob(f'stored unaltered {k}', stored - v, [1]))
             obs.append(Ob('id / nodes / type stored', 0 if (str(c.id), tuple(str(x) for x in c.nodes), c.type) == ('X', ('a', 'b'), name) else 1))
+        # the same rule through the description loader (generate_component / undictify_circuit), in the notation a user writes (constructor
+        # arguments) and in the notation the library itself saves (every stored field of the component)
+        from CircuitCalculator.Circuit import dump_load as cdl
+        if name in cdl.circuit_component_translators:
+            notations = {'as written': dict(kw)}
+            try:
+                valid = getattr(ccp, name)(V.label('X'), (V.label('a'), V.label('b')), **{k: (V.val(k + '~valid', 'pos') if k == target else v) for k, v in kw.items()})
+                saved = dict(valid.value)
+                if target in saved:
+                    saved[target] = p
+                    for k, v in kw.items():
+                        if k in saved and k != target: saved[k] = v
+                    notations['as saved'] = saved
+            except Exception:
+                pass
+            for label, value in notations.items():
+                entry = {'type': name, 'id': 'X', 'nodes': ['a', 'b'], 'value': value}
+                try:
+                    c2 = cdl.generate_component(entry); acc2 = True
+                except Exception:
+                    acc2 = False
+                obs.append(Ob(f'loader ({label}): negative {target} rejected', 1 if (neg and acc2) else 0))
+                if label == 'as written': obs.append(Ob(f'loader ({label}): non-negative {target} accepted', 1 if ((not neg) and not acc2) else 0))
+                if acc2 and not neg and label == 'as written':
+                    obs.append(Ob(f'loader ({label}): stores {target}', c2.value.get(target) - p, [1]))
+                try:
+                    cir = cdl.undictify_circuit({'components': [{'type': 'resistor', 'id': 'R0', 'nodes': ['a', 'b'], 'value': {'R': 1.0}}, entry]}); acc3 = True
+                except Exception:
+                    acc3 = False
+                obs.append(Ob(f'circuit loader ({label}): negative {target} rejected in second position', 1 if (neg and acc3) else 0))
         if cfg.get('twin'):
             obs = [Ob('twin', 1 if accepted else 0)]
         return obs
